@@ -66,6 +66,28 @@ static inline void verif_memset_loop(uint8_t* d, uint8_t c, uint64_t n) {
 #define verif_memcpy(d, s, n) do { if (n) memcpy((d), (s), (n)); } while (0)
 #define verif_memmove(d, s, n) do { if (n) memmove((d), (s), (n)); } while (0)
 #define verif_memset(d, c, n) do { if (n) memset((d), (c), (n)); } while (0)
+#elif defined(VERIF_MEM_WORDS)
+/* opt-in (unit gen_defs 'VERIF_MEM_WORDS'): a CONSTANT length that is a multiple of 8 and at most 64 is copied / filled as
+ * uint64_t words (all loads before all stores, so it is also a memmove). Same bytes as memcpy/memset; for CBMC a word-sized
+ * scalar (a pointer member of a std::vector/std::string moved as part of a 24/32-byte struct, a zero-initialised {0,0,0}) then
+ * stays ONE assignment of a constant/pointer instead of a byte_update of the whole object that symex cannot fold. Used with
+ * ir2c --union-words and VERIF_NEW_U64. Other lengths behave as in the default branch. */
+static inline void verif_mem_words(uint8_t* d, const uint8_t* s, uint64_t n) {
+  uint64_t* dw = (uint64_t*)d; const uint64_t* sw = (const uint64_t*)s;
+  uint64_t t0 = n > 0 ? sw[0] : 0, t1 = n > 8 ? sw[1] : 0, t2 = n > 16 ? sw[2] : 0, t3 = n > 24 ? sw[3] : 0;
+  uint64_t t4 = n > 32 ? sw[4] : 0, t5 = n > 40 ? sw[5] : 0, t6 = n > 48 ? sw[6] : 0, t7 = n > 56 ? sw[7] : 0;
+  if (n > 0) dw[0] = t0; if (n > 8) dw[1] = t1; if (n > 16) dw[2] = t2; if (n > 24) dw[3] = t3;
+  if (n > 32) dw[4] = t4; if (n > 40) dw[5] = t5; if (n > 48) dw[6] = t6; if (n > 56) dw[7] = t7;
+}
+static inline void verif_memset_words(uint8_t* d, uint8_t c, uint64_t n) {
+  uint64_t* dw = (uint64_t*)d; uint64_t v = 0x0101010101010101ULL * c;
+  if (n > 0) dw[0] = v; if (n > 8) dw[1] = v; if (n > 16) dw[2] = v; if (n > 24) dw[3] = v;
+  if (n > 32) dw[4] = v; if (n > 40) dw[5] = v; if (n > 48) dw[6] = v; if (n > 56) dw[7] = v;
+}
+#define VERIF_WORDS_OK(n) ((n) != 0 && (n) % 8 == 0 && (n) <= 64)
+#define verif_memcpy(d, s, n) (__builtin_constant_p(n) ? (VERIF_WORDS_OK(n) ? verif_mem_words((d), (s), (n)) : (void)((n) ? memcpy((d), (s), (n)) : 0)) : verif_memcpy_loop((d), (s), (n)))
+#define verif_memmove(d, s, n) (__builtin_constant_p(n) ? (VERIF_WORDS_OK(n) ? verif_mem_words((d), (s), (n)) : (void)((n) ? memmove((d), (s), (n)) : 0)) : verif_memmove_loop((d), (s), (n)))
+#define verif_memset(d, c, n) (__builtin_constant_p(n) ? (VERIF_WORDS_OK(n) ? verif_memset_words((d), (uint8_t)(c), (n)) : (void)((n) ? memset((d), (c), (n)) : 0)) : verif_memset_loop((d), (uint8_t)(c), (n)))
 #else
 #define verif_memcpy(d, s, n) (__builtin_constant_p(n) ? (void)((n) ? memcpy((d), (s), (n)) : 0) : verif_memcpy_loop((d), (s), (n)))
 #define verif_memmove(d, s, n) (__builtin_constant_p(n) ? (void)((n) ? memmove((d), (s), (n)) : 0) : verif_memmove_loop((d), (s), (n)))
